@@ -8,7 +8,7 @@ from engine import build, irload, runner
 from engine.contracts import API, LibHooks
 from engine.absval import Int, Ptr, Null
 from engine.lin import Aff
-from engine.common import need
+from engine.common import need, AnalysisBroken
 from props.c03 import make_preset
 from props.c04 import WHooks
 
@@ -70,7 +70,13 @@ def run(rep, tier):
             rep.ob(not r['extra']['changed'], '%s:NOOP-STATE:%s' % (r['fn'], tn),
                    'C11 %s modifies parser/writer state although the value is not a container: %s' % (where, r['extra']['changed'][:4]), '',
                    sample={'fn': r['fn'], 'current_type': tn, 'stores_to_parser_or_writer_state': 0})
-        span_clause(rep, sc, tier)
+        try:
+            span_clause(rep, sc, tier)
+        except AnalysisBroken as e:
+            if not rep.violations:
+                raise
+            rep.assumptions.append('span clause not evaluated on this tree: %s' % e)
+            print('NOTE C11 span clause not evaluated: %s' % e)
     rep.coverage.update({
         'rule': '2 functions x 8 non-container current types x entry disjuncts (+ error latched): every exit returns false and no store/memset/memmove '
                 'reaches the parser struct, the state array, the writer struct or the output buffer',
